@@ -109,6 +109,14 @@ func WriteFile(fromFile io.Reader, to string, mode os.FileMode) error {
 	if err != nil {
 		return err
 	}
+	// Don't leave the temporary file lying about next to the destination if anything below fails.
+	renamed := false
+	defer func() {
+		if !renamed {
+			tempFile.Close()
+			os.Remove(tempFile.Name())
+		}
+	}()
 	verifhook.Point("fs.writefile.created")
 	if _, err := io.Copy(tempFile, fromFile); err != nil {
 		return err
@@ -126,7 +134,11 @@ func WriteFile(fromFile io.Reader, to string, mode os.FileMode) error {
 	}
 	verifhook.Point("fs.writefile.chmodded")
 	// And move it to its final destination.
-	return renameFile(tempFile.Name(), to)
+	if err := renameFile(tempFile.Name(), to); err != nil {
+		return err
+	}
+	renamed = true
+	return nil
 }
 
 // IsDirectory checks if a given path is a directory
